@@ -4,6 +4,7 @@ import (
 	"fmt"
 	"go/constant"
 	"go/token"
+	"go/types"
 	"strings"
 
 	"mrocheck/an"
@@ -311,6 +312,7 @@ func runC14(c *an.Ctx) {
 
 	ruleW2CountedOnce(c)
 	ruleW1Containment(c)
+	ruleW4(c)
 	// ---------------- W3 ----------------
 	ruleW3(c)
 }
@@ -800,4 +802,57 @@ func ruleW1Containment(c *an.Ctx) {
 		})
 	}
 	c.Floor("W1", "prefix containment tests in the VDR file", n, 1)
+}
+
+// W4: a fork whose final kill report has been written says so.  Fork.vdrKillSome(partial, done)
+// writes the fork's final `_vdrkill` when `done` is set and reports with its boolean result
+// whether the fork is finished; Node.vdrKill adds a fork's report to the stage's and the
+// pipestance's totals only when that result is true.  A path that writes the final report and
+// then returns the constant false drops the fork's numbers: the pipestance `_vdrkill` under-reports
+// what was removed.  Rule: in every function of package core whose second result is a bool, no
+// return reachable after a Write of the VdrKill file yields the constant false as that result.
+func ruleW4(c *an.Ctx) {
+	p := c.P
+	vdrKillFile := p.Const(pkgCore, "VdrKill")
+	if vdrKillFile == nil {
+		c.Info("W4", "anchor(VdrKill)", token.NoPos, "constant not found: not decided")
+		return
+	}
+	n := 0
+	for _, fn := range coreFns(c) {
+		res := fn.Signature.Results()
+		if res.Len() != 2 {
+			continue
+		}
+		if b, ok := res.At(1).Type().Underlying().(*types.Basic); !ok || b.Kind() != types.Bool {
+			continue
+		}
+		an.Instrs(fn, func(in ssa.Instruction) {
+			cl, ok := an.IsMethodCall(in, corePath, "Metadata", "Write")
+			if !ok || len(cl.Common().Args) < 2 || !an.IsConst(cl.Common().Args[1], vdrKillFile) {
+				return
+			}
+			n++
+			var bad *ssa.Return
+			an.Instrs(fn, func(x ssa.Instruction) {
+				ret, ok := x.(*ssa.Return)
+				if !ok || bad != nil || len(ret.Results) < 2 {
+					return
+				}
+				if !an.Reachable(fn, in, func(y ssa.Instruction) bool { return y == x }) {
+					return
+				}
+				if cv, isC := an.ConstVal(an.RetVal(ret, 1)); isC && cv.Kind() == constant.Bool && !constant.BoolVal(cv) {
+					bad = ret
+				}
+			})
+			where := ""
+			if bad != nil {
+				where = c.P.Pos(bad.Pos())
+			}
+			c.Check("W4", "final-report-written-means-done@"+an.FnName(fn), in.Pos(), bad == nil,
+				"the fork's final _vdrkill is written, but a return reachable afterwards ("+where+") reports `false` (not finished): Node.vdrKill then leaves this fork's report out of the stage and pipestance totals, which under-report what was removed")
+		})
+	}
+	c.Floor("W4", "final kill reports written in functions that report completion", n, 1)
 }
